@@ -5,27 +5,45 @@
 // from the same shot-tape -- the result must be bit-identical.
 #include <cmath>
 #include <iostream>
+#include <map>
 #include <memory>
+#include <set>
+#include <tuple>
 #include <unistd.h>
 #include <rapidcheck.h>
 
+#include <sys/wait.h>
 #include <bxdecay0/decay0_generator.h>
 #include "../engine/vf.hpp"
+#include "refdict.inc"
+#include "catalog.hpp"
 
 using namespace vf;
 typedef bxdecay0::decay0_generator G;
 
 struct CfgT { const char * kind; const char * name; int level, mode; double emin, emax; };
 // configurations with angular correlations, deep cascades, chains, windows, 4b, b+ modes
-static const CfgT CFGS[] = {
+static const CfgT CFGS_FIXED[] = {
   {"bkg", "Co60", 0, 0, 0, 0}, {"bkg", "Bi207+Pb207m", 0, 0, 0, 0}, {"bkg", "Tl208", 0, 0, 0, 0}, {"bkg", "Bi214+Po214", 0, 0, 0, 0},
   {"bkg", "Y90", 0, 0, 0, 0}, {"bkg", "K40", 0, 0, 0, 0}, {"bkg", "Eu152", 0, 0, 0, 0}, {"bkg", "Ac228", 0, 0, 0, 0},
   {"dbd", "Mo100", 3, 3, 0, 0}, {"dbd", "Ge76", 3, 3, 0, 0}, {"dbd", "Nd150", 3, 3, 0, 0}, {"dbd", "Mo100", 0, 1, 0, 0},
   {"dbd", "Nd150", 0, 20, 0, 0}, {"dbd", "Cd106", 1, 9, 0, 0}, {"dbd", "Se82", 0, 4, 0.8, 2.2}, {"dbd", "Rn222", 0, 1, 0, 0},
-  {"dbd", "Mo100", 1, 7, 0, 0}, {"dbd", "Ru96", 0, 12, 0, 0},
+  {"dbd", "Mo100", 1, 7, 0, 0}, {"dbd", "Ru96", 0, 12, 0, 0}, {"dbd", "Bi214", 0, 1, 0, 0}, {"dbd", "Pb214", 0, 4, 0, 0}, {"dbd", "Po218", 0, 1, 0, 0},
 };
-static const int NCFG = sizeof(CFGS) / sizeof(CFGS[0]);
-
+// the fixed list above (angular correlations, deep cascades, chains, windows, 4b, b+ modes) plus EVERY published background name,
+// so that any two nuclides can follow each other in one thread (hidden state shared across nuclides)
+static std::vector<CfgT> & cfgs()
+{
+  static std::vector<CfgT> v; static std::vector<std::string> names;
+  if (v.empty()) {
+    for (auto & c : CFGS_FIXED) v.push_back(c);
+    names = catalog::background_published();
+    for (auto & n : names) { bool dup = false; for (auto & c : CFGS_FIXED) if (n == c.name) dup = true; if (!dup) v.push_back({"bkg", n.c_str(), 0, 0, 0, 0}); }
+  }
+  return v;
+}
+#define CFGS (cfgs())
+#define NCFG ((int)cfgs().size())
 static void configure(G & g, const CfgT & c)
 {
   if (std::string(c.kind) == "bkg") { g.set_decay_category(G::DECAY_CATEGORY_BACKGROUND); g.set_decay_isotope(c.name); }
@@ -71,6 +89,81 @@ static bool same_event(const bxdecay0::event & a, const bxdecay0::event & b, std
   return true;
 }
 
+
+// ---- steered tapes: improbable branches matter for hidden state shared across nuclides
+static const std::vector<double> & dict_for_cfg(int cfg)
+{
+  static std::map<int, std::vector<double>> cache; auto it = cache.find(cfg); if (it != cache.end()) return it->second;
+  std::set<double> s; std::set<std::string> seen; std::vector<std::string> todo; const CfgT & c = CFGS[cfg];
+  std::string rn = std::string(c.name).substr(0, std::string(c.name).find('+'));
+  auto d0 = REF_DISPATCH.find(std::string(c.kind) + ":" + rn); if (d0 != REF_DISPATCH.end()) todo = d0->second;
+  while (!todo.empty()) { std::string n = todo.back(); todo.pop_back(); if (!seen.insert(n).second) continue; auto d = REF_DICT.find(n); if (d != REF_DICT.end()) s.insert(d->second.begin(), d->second.end());
+    auto cl = REF_CALLS.find(n); if (cl != REF_CALLS.end()) for (auto & x : cl->second) { if (x == "beta" || x == "beta1" || x == "beta2" || x == "beta_1fu" || x == "particle" || x == "pair" || x == "tgold") continue; todo.push_back(x); } }
+  return cache[cfg] = std::vector<double>(s.begin(), s.end());
+}
+static void shot_tape(Tape & t, int cfg, uint32_t tseed)
+{ t.seed = mix(0xC07, tseed); t.dict = &dict_for_cfg(cfg); int k = tseed % 3; t.prof.p_plain = k == 0 ? 1.0 : 0.6; t.prof.w_dict = k == 0 ? 0 : 2; t.prof.w_low = t.prof.w_high = k == 2 ? 0.5 : 0; }
+
+// ---- pristine-process oracle: what a FRESH PROCESS computes for (configuration, init tape, shot tape).
+// A server process is forked before any library call; for each request it forks a grandchild that runs a fresh generator in a
+// process whose library state has never seen another configuration, and pipes the event back.  (An in-process "fresh instance"
+// oracle would share function-local statics and caches of the library with the history under test.)
+struct OracleEvent { std::vector<double> v; std::string label; size_t used = 0; bool ok = true; };
+static int g_req_fd = -1, g_rsp_fd = -1; static pid_t g_server = -1;
+static void compute_event(int cfg, uint32_t iseed, uint32_t tseed, OracleEvent & o)
+{
+  try {
+    G f; configure(f, CFGS[cfg]); Tape it; it.seed = iseed; TapeRandom r0(it, 0, 200000); f.initialize(r0);
+    bxdecay0::event e; Tape t; shot_tape(t, cfg, tseed); TapeRandom r(t, 0, 200000); f.shoot(r, e);
+    o.label = e.get_generator(); o.used = r.pos; o.v.push_back(e.get_time());
+    for (auto & p : e.get_particles()) { o.v.push_back((double)p.get_code()); o.v.push_back(p.get_time()); o.v.push_back(p.get_px()); o.v.push_back(p.get_py()); o.v.push_back(p.get_pz()); }
+  } catch (std::exception &) { o.ok = false; }
+}
+static void wr(int fd, const void * p, size_t n) { const char * c = (const char *)p; while (n) { ssize_t k = write(fd, c, n); if (k <= 0) _exit(3); c += k; n -= k; } }
+static bool rd(int fd, void * p, size_t n) { char * c = (char *)p; while (n) { ssize_t k = read(fd, c, n); if (k <= 0) return false; c += k; n -= k; } return true; }
+static void start_oracle_server()
+{
+  int rq[2], rs[2]; if (pipe(rq) || pipe(rs)) throw std::runtime_error("pipe");
+  g_server = fork();
+  if (g_server == 0) {
+    close(rq[1]); close(rs[0]);
+    while (true) {
+      uint32_t req[3]; if (!rd(rq[0], req, sizeof req)) _exit(0);
+      pid_t g = fork();
+      if (g == 0) {
+        OracleEvent o; compute_event((int)req[0], req[1], req[2], o);
+        uint64_t hdr[4] = {o.ok, o.v.size(), o.label.size(), o.used}; wr(rs[1], hdr, sizeof hdr); if (!o.v.empty()) wr(rs[1], o.v.data(), o.v.size() * sizeof(double)); if (!o.label.empty()) wr(rs[1], o.label.data(), o.label.size());
+        _exit(0);
+      }
+      int st; waitpid(g, &st, 0);
+      if (!WIFEXITED(st) || WEXITSTATUS(st) != 0) { uint64_t hdr[4] = {2, 0, 0, 0}; wr(rs[1], hdr, sizeof hdr); }
+    }
+  }
+  close(rq[0]); close(rs[1]); g_req_fd = rq[1]; g_rsp_fd = rs[0];
+}
+static const OracleEvent & oracle(int cfg, uint32_t iseed, uint32_t tseed)
+{
+  static std::map<std::tuple<int, uint32_t, uint32_t>, OracleEvent> memo; auto key = std::make_tuple(cfg, iseed, tseed);
+  auto it = memo.find(key); if (it != memo.end()) return it->second;
+  uint32_t req[3] = {(uint32_t)cfg, iseed, tseed}; wr(g_req_fd, req, sizeof req);
+  uint64_t hdr[4]; if (!rd(g_rsp_fd, hdr, sizeof hdr)) throw std::runtime_error("oracle server died");
+  OracleEvent o; o.ok = hdr[0] == 1; o.v.resize(hdr[1]); o.label.resize(hdr[2]); o.used = hdr[3];
+  if (hdr[1]) rd(g_rsp_fd, o.v.data(), hdr[1] * sizeof(double)); if (hdr[2]) rd(g_rsp_fd, &o.label[0], hdr[2]);
+  if (hdr[0] == 2) throw std::runtime_error("oracle grandchild crashed");
+  return memo[key] = o;
+}
+static bool same_as_oracle(const bxdecay0::event & e, size_t used, const OracleEvent & o, std::string & why)
+{
+  if (!o.ok) { why = "pristine process refuses what the history accepted"; return false; }
+  if (e.get_generator() != o.label) { why = "generator label"; return false; }
+  std::vector<double> v; v.push_back(e.get_time());
+  for (auto & p : e.get_particles()) { v.push_back((double)p.get_code()); v.push_back(p.get_time()); v.push_back(p.get_px()); v.push_back(p.get_py()); v.push_back(p.get_pz()); }
+  if (v.size() != o.v.size()) { why = "particle count " + std::to_string((v.size() - 1) / 5) + " vs " + std::to_string((o.v.size() - 1) / 5) + " in a fresh process"; return false; }
+  for (size_t i = 0; i < v.size(); i++) if (memcmp(&v[i], &o.v[i], sizeof(double))) { why = (i == 0 ? std::string("event time") : "particle " + std::to_string((i - 1) / 5) + " field " + std::to_string((i - 1) % 5)) + ": " + jnum(v[i]) + " vs " + jnum(o.v[i]) + " in a fresh process"; return false; }
+  if (used != o.used) { why = "deviates consumed " + std::to_string(used) + " vs " + std::to_string(o.used); return false; }
+  return true;
+}
+
 struct Slot { std::unique_ptr<G> g; int cfg = -1; uint32_t iseed = 0; int shots = 0; bxdecay0::event ev; bool ev_used = false; };
 struct RunInfo { bool ok = true; std::string msg, cls; int step = -1; bool nontrivial = false; std::string target; std::string shape; };
 
@@ -93,17 +186,16 @@ static RunInfo run_history(const std::vector<Op> & ops)
       if (o.evkind == 1) ev = &s.ev; // persistent event object of this slot, reused across shots
       if (o.evkind == 2) { bxdecay0::particle p; p.set_code(bxdecay0::ALPHA); p.set_time(3.0); p.set_momentum(9, 8, 7); for (int i = 0; i < o.junk; i++) local.add_particle(p); local.set_generator("junk"); local.set_time(5.0); }
       if (o.evkind == 3) { ev = &s.ev; s.ev.grab_particles().shrink_to_fit(); }
-      Tape t; t.seed = mix(0xC07, o.tseed); TapeRandom r(t, 0, 200000);
+      Tape t; shot_tape(t, s.cfg, o.tseed); TapeRandom r(t, 0, 200000);
       s.g->shoot(r, *ev);
-      // oracle: fresh generator, fresh event, same tapes
-      G f; configure(f, CFGS[s.cfg]); Tape it; it.seed = s.iseed; TapeRandom r0(it, 0, 200000); f.initialize(r0);
-      bxdecay0::event e2; Tape t2; t2.seed = mix(0xC07, o.tseed); TapeRandom r2(t2, 0, 200000); f.shoot(r2, e2);
+      // oracle: the same (configuration, init tape, shot tape) in a pristine process, fresh generator, fresh event
+      const OracleEvent & want = oracle(s.cfg, s.iseed, o.tseed);
       std::string why;
       bool nt = s.shots >= 1 && other_ops[o.slot] >= 1 && o.evkind != 0;
       if (nt) { ri.nontrivial = true; ri.target = std::string(CFGS[s.cfg].name) + ":" + std::to_string(CFGS[s.cfg].level) + ":" + std::to_string(CFGS[s.cfg].mode); ri.shape = std::string(EVK[o.evkind]) + "/" + std::to_string(std::min(s.shots, 3)) + "/" + std::to_string(std::min(other_ops[o.slot], 3)); }
-      if (!same_event(*ev, e2, why) || r.pos != r2.pos) {
+      if (!same_as_oracle(*ev, r.pos, want, why)) {
         ri.ok = false; ri.step = (int)k; ri.cls = std::string("history-dependent:") + CFGS[s.cfg].name;
-        ri.msg = "event of " + op_str(o) + " differs from a fresh generator + fresh event on the same deviates: " + (why.empty() ? "deviates consumed differ" : why);
+        ri.msg = "event of " + op_str(o) + " differs from what a fresh process produces for the same configuration and deviates: " + why;
         return ri;
       }
       s.shots++; other_ops[o.slot] = 0; s.ev_used = true;
@@ -134,6 +226,7 @@ int main(int argc, char ** argv)
   if (!a.has("verbose")) { std::cerr.rdbuf(devnull.rdbuf()); std::clog.rdbuf(devnull.rdbuf()); }
   FILE * res = fdopen(out_fd, "w");
   int shard = a.i("shard", 0); long long cases = a.i("cases", 150); uint64_t seed = a.i("seed", 1);
+  cfgs(); start_oracle_server();
   if (a.has("replay")) {
     JV j = jload(a.s("replay")); std::vector<Op> ops;
     for (auto & e : j.at("ops").arr) ops.push_back({(int)e.arr[0].num, (int)e.arr[1].num, (int)e.arr[2].num, (int)e.arr[3].num, (int)e.arr[4].num, (uint32_t)e.arr[5].num});
@@ -146,7 +239,7 @@ int main(int argc, char ** argv)
     std::vector<Op> failing; RunInfo fri;
     auto genOp = rc::gen::apply([](int kind, int slot, int cfg, int evkind, int junk, uint32_t ts) {
       // shots are the majority of operations
-      Op o; o.kind = kind < 5 ? SHOOT : (kind < 8 ? CREATE : (kind == 8 ? RESET_REINIT : DESTROY)); o.slot = slot; o.cfg = cfg; o.evkind = evkind; o.junk = junk; o.tseed = ts % 1000; return o; },
+      Op o; o.kind = kind < 5 ? SHOOT : (kind < 8 ? CREATE : (kind == 8 ? RESET_REINIT : DESTROY)); o.slot = slot; o.cfg = cfg; o.evkind = evkind; o.junk = junk; o.tseed = ts % 60; return o; },
       rc::gen::resize(100, rc::gen::inRange(0, 10)), rc::gen::resize(100, rc::gen::inRange(0, 4)), rc::gen::resize(100, rc::gen::inRange(0, NCFG)),
       rc::gen::resize(100, rc::gen::inRange(0, 4)), rc::gen::resize(100, rc::gen::inRange(0, 40)), rc::gen::arbitrary<uint32_t>());
     bool okrc = rc::check("events do not depend on history", [&]() {
